@@ -90,10 +90,12 @@ PROPS = {
              "random weights} and non-MSD streams, window sets {static; +delta; +delta+delta-delta; width-5; asymmetric [-1,1,0]}. "
              "class = (#windows, max width, voicing class, vector length); non-trivial = a voiced island of >= 2 frames and at least one dynamic window",
         theorem_clauses=["frame -> state assignment by durations", "boundary distances = voiced run lengths; dynamic window ignored iff span touches unvoiced/edge",
-                         "fill: NODATA exactly on unvoiced frames", "calc_wuw_and_wum assembles exactly the band of W'U^-1W and W'U^-1 mu (given zero precision where a span leaves the frame range)", "banded LDL^T + substitutions solve A c = r for every length and band width (non-zero pivots)",
-                         "normal equations with precisions >= 0 imply maximum likelihood"],
-        test_clauses=["pivots non-zero on every executed case", "rounding accuracy (normal-equation residual built from the definition over absolute frames <= 1e-8 of scale)",
-                      "create() hands calc_wuw_and_wum precisions that are zero where the span leaves the voiced run (EdgeZero), checked through the oracle"],
+                         "fill: NODATA exactly on unvoiced frames", "calc_wuw_and_wum assembles exactly the band of W'U^-1W and W'U^-1 mu",
+                         "create's observation sequences carry zero precision where a span leaves the voiced frames (EdgeZero by construction)",
+                         "positive definite => every LDL^T pivot positive", "banded LDL^T + substitutions solve A c = r for every length and band width",
+                         "solve returns the solution of the dense normal equations", "normal equations with precisions >= 0 imply maximum likelihood",
+                         "END TO END: create returns a trajectory on every well-formed stream and each column maximises the log-likelihood over all sequences"],
+        test_clauses=["rounding accuracy in f64 (normal-equation residual built from the definition over absolute frames <= 1e-8 of scale)"],
         assumptions=["variances in the property's range (with_ivar's saturation branches are outside it)"],
     ),
     "C07": dict(
@@ -102,10 +104,10 @@ PROPS = {
              "incl. exactly integer periods; every third case with an odd low-pass order 1..31 and a random per-frame h, plus two auxiliary runs (h = delta, "
              "h = 0) from which the mixing law is checked. class = (low-pass order bucket, voicing pattern, steps/const, integer/fractional period); "
              "non-trivial = at least one voiced frame",
-        theorem_clauses=["pulse fires iff counter+1 > period; height sqrt(period)", "every gap of a constant-F0 stretch is floor(T0) or ceil(T0), = T0 for integer T0",
+        theorem_clauses=["pulse fires iff counter+1 > period; height sqrt(period)", "every gap of a constant-F0 stretch is floor(T0) or ceil(T0), = T0 for integer T0", "ring buffer output = convolution of queued contributions: h*pulses + (delta-h)*noise",
                          "start fires at once, counter 1", "linear glide of the period across a frame", "period = rate/exp(clamp lf0), NODATA -> unvoiced",
                          "LCG deviates in [0,1]", "pinned-commit defect (first gap T0-1 for integer T0) as a statement"],
-        test_clauses=["mixed excitation = h*pulses + (delta-h)*noise (from three implementation runs)", "noise mean ~ 0, variance ~ 1 (>= 5000 unvoiced samples)",
+        test_clauses=["noise mean ~ 0, variance ~ 1 (>= 5000 unvoiced samples)",
                       "pulse heights under glide, mean power over constant stretches"],
         assumptions=["the MLSA filter with zero coefficients is the identity (theorem mlsaDf_zero, C06)"],
     ),
@@ -124,9 +126,9 @@ PROPS = {
              "random increasing frequencies with spacing >= pi/(4(order+1)), rates 48k/96k, one frame of rate/20-1 samples; every 4th case with beta>0 "
              "(finite/decaying only). class = (order bucket, parity, stage, alpha, gain kind, beta); spectrum clause evaluated when the truncated tail is < -120 dB",
         theorem_clauses=["repaired lsp2lpc does not read the gain element; head coefficient 1", "gc2gc between equal gamma is truncation",
-                         "ignorm inverts gnorm (given the power law)", "MGLSA = cascade of `stage` sections", "gamma = -1/stage", "well-separated frequencies pass the stability check unchanged"],
+                         "ignorm inverts gnorm (given the power law)", "MGLSA = cascade of `stage` sections", "gamma = -1/stage", "well-separated frequencies pass the stability check unchanged", "lsp2lpc = coefficients of (P+Q)/2 for every order"],
         test_clauses=["|ln|H| - ln(K/|A(e^{jw~})|^s)| <= 0.001 neper within 100 dB of the peak, A from polynomial multiplication of the LSP factors",
-                      "finite, decaying response", "lsp2lpc output = coefficients of (P+Q)/2 (not yet a theorem)"],
+                      "finite, decaying response"],
         assumptions=[],
     ),
     "C14": dict(
@@ -178,7 +180,7 @@ PROPS = {
              "every coefficient over eligible frames (GV switch on, voiced) vs weight x GV mean; silence-only utterances for the no-eligible case (compared bitwise "
              "with the ML solution from the stage API); low-pass stream under two GV weights. class = (voice kind, stream, eligibility class)",
         theorem_clauses=["target = gv_mean x gv_weight; switch expanded by durations and restricted to voiced frames", "no eligible frame -> plain ML solution",
-                         "a stream without GV ignores the GV weight", "conv_gv sets the variance over eligible frames exactly to the target, keeps their mean and the ineligible frames"],
+                         "a stream without GV ignores the GV weight", "conv_gv sets the variance over eligible frames exactly to the target, keeps their mean and the ineligible frames", "GV switch of a state is on iff its label matches no GV-off pattern"],
         test_clauses=["variance within 20 % of the target when >= 100 frames are eligible", "variance monotone in the weight", "five Newton-like steps (model bit-identical)"],
         assumptions=["the 20 % and monotonicity clauses are empirical properties of a truncated iteration; not provable in exact arithmetic without a convergence analysis"],
     ),
